@@ -280,7 +280,8 @@ def _configs(ctx: Check, rng):
         if n <= 12:
             ways |= {(n + 1, 0), (n, 2), (n, n), (max(1, n - 1), 3)}
         for aw, fw in sorted(ways):
-            for init in (-1, rng.randrange(full + 1), ~rng.randrange(full + 1), -1 << rng.randint(1, n)) + ((0,) if (aw, fw) == (2, 2) else ()):
+            neg = ~rng.randrange(full + 1) if (aw + fw) % 2 else -1 << rng.randint(1, n)
+            for init in (-1, rng.randrange(full + 1), neg) + ((0,) if (aw, fw) == (2, 2) else ()):
                 out.append((n, aw, fw, init))
     return out
 
